@@ -21,6 +21,21 @@
 (* wrapper that hides the base's node kind from its parent; the "w1" hole  *)
 (* puts such a wrapper around every depth-1 composite in every operand     *)
 (* position of every operator.                                             *)
+(*                                                                         *)
+(* Round 4.  Degenerate arities are legal inputs (the evaluator and every  *)
+(* mapper accept them, Eval gives them a meaning: the fold over one        *)
+(* operand).  A ONE-child Sum / Product (bitwise n-ary kinds as well in    *)
+(* the wider tiers) is, like x**1, a node of its own kind between a parent *)
+(* and the composite that ends up in the text: the "w2" hole offers every  *)
+(* such wrapper around every depth-1 composite, and WRoots puts a wrapper  *)
+(* hole in every operand position of every operator (quick: the other      *)
+(* operand is the variable x, wider tiers: the leaf2 pool).  The           *)
+(* simulation also grows one-child nodes at any depth.  The one-factor     *)
+(* product of                                                              *)
+(* the number -1 (DegLeaves) is offered wherever a leaf or composite is    *)
+(* ("any" pool): it is the subtraction idiom a + -1*b with nothing left    *)
+(* to subtract.  Sum(()) / Product(()) stay outside: CTy = "bad" (no C     *)
+(* operator, no operand whose type the translation could have).            *)
 (***************************************************************************)
 EXTENDS C14_CModel, Json
 CONSTANT Tier          \* "quick" | "thorough" | "sim"
@@ -36,6 +51,7 @@ HoleT(ty) == [t |-> "Hole", ty |-> ty]
 A == HoleT("any")  L == HoleT("leaf")  Cn == HoleT("cond")  Ex == HoleT("exp")
 P2 == HoleT("pow2") L2 == HoleT("leaf2")
 W1 == HoleT("w1")
+W2 == HoleT("w2")  L1 == HoleT("leaf1")
 
 \* ---- integer fragment ---------------------------------------------------
 IntLeaves == { x, y, z, KI(2), M1 }
@@ -96,7 +112,8 @@ FltD1 == IF Tier = "quick" THEN FltD1Quick ELSE FltD1Quick \cup FltD1More
 SimSkel(fr) ==
     { N("Sum", << A, A >>), N("Product", << A, A >>), N("Sum", << A, N("Product", << M1, A >>) >>),
       Cmp(A, "<", A), IfE(Cn, A, A), CSE0(A), CP(A, "u"), Call(ff, << A, A >>),
-      B("Power", A, Ex), N("LogAnd", << A, A >>), U("LogNot", A) }
+      B("Power", A, Ex), N("LogAnd", << A, A >>), U("LogNot", A),
+      N("Sum", << A >>), N("Product", << A >>) }        \* one-child nodes at any depth
     \cup (IF fr = "int"
           THEN { B("FloorDiv", A, A), B("Remainder", A, A), N("BitAnd", << A, A >>),
                  N("BitOr", << A, A >>), N("BitXor", << A, A >>), U("BitNot", A),
@@ -105,17 +122,31 @@ SimSkel(fr) ==
 
 Leaves(fr) == IF fr = "int" THEN IntLeaves ELSE FltLeaves
 D1(fr) == IF fr = "int" THEN IntD1 ELSE FltD1
+\* degenerate leaves: a composite node kind over one constant operand
+DegLeaves == { N("Product", << M1 >>) }
+\* the n-ary kinds whose ONE-child node has a C translation (the fold over one operand is
+\* the operand; a 1-ary && / || is outside the fragment, C14_CSem!CTy)
+WrapKinds(fr) == IF Tier = "quick" \/ fr = "flt" THEN {"Sum", "Product"}
+                 ELSE {"Sum", "Product", "BitOr", "BitXor", "BitAnd"}
+\* the nodes that stand between a parent and a composite without adding an operator of
+\* their own: x**1 and the one-child n-ary nodes
+OneChild(s, fr) == { N(k, << s >>) : k \in WrapKinds(fr) }
+Leaf2(fr) == IF fr = "int" THEN { x, KI(2), KI(1) } ELSE { x, KI(2), Half }
 
 PoolFor(ty, fr, small) ==
-    CASE ty = "any"  -> Leaves(fr) \cup D1(fr) \cup (IF Tier = "sim" /\ small THEN SimSkel(fr) ELSE {})
+    CASE ty = "any"  -> Leaves(fr) \cup D1(fr) \cup DegLeaves \cup (IF Tier = "sim" /\ small THEN SimSkel(fr) ELSE {})
       [] ty = "leaf" -> Leaves(fr)
-      [] ty = "leaf2" -> IF fr = "int" THEN { x, KI(2), KI(1) } ELSE { x, KI(2), Half }
+      [] ty = "leaf2" -> Leaf2(fr)
+      \* the other operand next to a one-child wrapper: quick keeps the variable
+      [] ty = "leaf1" -> IF Tier = "quick" THEN { x } ELSE Leaf2(fr)
       [] ty = "cond" -> { x, z, Cmp(x, "<", y), Cmp(z, "==", KI(0)), U("LogNot", y) }
       [] ty = "exp"  -> IF fr = "int" THEN { KI(0), KI(1), KI(2), KI(3), y }
                         ELSE { KI(0), KI(1), KI(2), KI(3), M1, KI(-2) }
       \* divisors that are exact powers of two in every float environment
       \* x**1 around every depth-1 composite (printed as the composite itself)
       [] ty = "w1"   -> { B("Power", s, KI(1)) : s \in D1(fr) }
+      \* Sum((s,)), Product((s,)), ... around every depth-1 composite s
+      [] ty = "w2"   -> UNION { OneChild(s, fr) : s \in D1(fr) }
       [] ty = "pow2" -> { z, KI(2), Half, KI(4), N("Product", << z, z >>), B("Quotient", KI(1), z),
                           B("Power", z, KI(2)) }
 
@@ -138,6 +169,15 @@ Nary(fr) == IF fr = "int" THEN IntNary ELSE CommonNary
 Full == Tier # "quick"
 Pairs(k) == IF Full \/ k \in {"Sum", "Product", "FloorDiv", "Remainder", "Quotient"}
             THEN { << A, A >> } ELSE { << A, L >>, << L, A >> }
+\* a wrapper hole W in every operand position of every operator, the other operand a leaf Lf
+WRoots(fr, W, Lf) ==
+       UNION { { N(k, << Lf, W >>), N(k, << W, Lf >>) } : k \in Nary(fr) }
+  \cup { Cmp(Lf, "<", W), Cmp(W, "==", Lf), U("LogNot", W), B("Power", W, Ex),
+         N("Sum", << Lf, N("Product", << M1, W >>) >>), IfE(Cn, W, Lf), Call(gg, << W >>), CSE0(W) }
+  \cup (IF fr = "int"
+        THEN UNION { { B(k, Lf, W), B(k, W, Lf) } : k \in {"FloorDiv", "Remainder", "LShift", "RShift"} }
+             \cup { U("BitNot", W), B("Sub", tt, W) }
+        ELSE { B("Quotient", Lf, W), B("Quotient", W, Lf) })
 Roots(fr) ==
        { N(k, << A >>) : k \in Nary(fr) \ {"LogOr", "LogAnd"} }
   \cup UNION { { N(k, p) : p \in Pairs(k) } : k \in Nary(fr) }
@@ -163,16 +203,11 @@ Roots(fr) ==
         THEN { B(k, A, N("Product", << N("Sum", << x, y >>), N("Sum", << z, L2 >>) >>)) : k \in {"Remainder", "FloorDiv"} }
              \cup { B("Remainder", L2, N("Product", << B("FloorDiv", x, L2), B("FloorDiv", y, KI(2)) >>)) }
         ELSE { B("Quotient", A, N("Product", << N("Sum", << z, z >>), N("Sum", << KI(2), KI(2) >>) >>)) })
-  \* the transparent wrapper x**1 in every operand position: whatever the parent
-  \* decides by looking at the operand (its node kind, its precedence) it must decide
-  \* for the wrapped composite, which is what ends up in the text
-  \cup UNION { { N(k, << L2, W1 >>), N(k, << W1, L2 >>) } : k \in Nary(fr) }
-  \cup { Cmp(L2, "<", W1), Cmp(W1, "==", L2), U("LogNot", W1), B("Power", W1, Ex),
-         N("Sum", << L2, N("Product", << M1, W1 >>) >>), IfE(Cn, W1, L2), Call(gg, << W1 >>), CSE0(W1) }
-  \cup (IF fr = "int"
-        THEN UNION { { B(k, L2, W1), B(k, W1, L2) } : k \in {"FloorDiv", "Remainder", "LShift", "RShift"} }
-             \cup { U("BitNot", W1), B("Sub", tt, W1) }
-        ELSE { B("Quotient", L2, W1), B("Quotient", W1, L2) })
+  \* the wrappers (x**1, one-child Sum / Product) in every operand position: whatever the
+  \* parent decides by looking at the operand (its node kind, its precedence) and whatever
+  \* the wrapper decides for its lone operand, the composite that ends up in the text must
+  \* stay one operand of the parent
+  \cup WRoots(fr, W1, L2) \cup WRoots(fr, W2, L1)
   \cup Leaves(fr)
   \cup (IF fr = "int"
         THEN UNION { { B(k, p[1], p[2]) : p \in Pairs(k) } : k \in {"FloorDiv", "Remainder", "LShift", "RShift"} }
@@ -254,5 +289,15 @@ ASSUME ~CExpressible(N("Sum", << x, tt >>), "int")
 ASSUME RepsFor(N("Sum", << x, y >>)) = {"py"}
 ASSUME RepsFor(CSE0(N("Sum", << x, Half >>))) = Reps
 ASSUME RepsFor(B("Power", B("Remainder", x, y), KI(1))) = Reps
+\* degenerate arities: a one-child Sum / Product is inside the fragment with its operand's
+\* type and meaning, the empty ones are outside
+ASSUME CTy(N("Sum", << B("Remainder", x, y) >>), "int") = "long"
+ASSUME CTy(N("Product", << M1 >>), "flt") = "long"
+ASSUME CTy(N("Sum", << >>), "int") = "bad" /\ CTy(N("Product", << >>), "int") = "bad"
+ASSUME Eval(N("Product", << x, N("Sum", << B("Remainder", x, y) >>) >>), IntEnvs[3]) = IntV(7)
+ASSUME Eval(N("Sum", << x, N("Product", << M1 >>) >>), IntEnvs[1]) = IntV(5)
+\* "x * x % y" is not x * (x % y) in C (x=7 y=2), and "x -" is not an expression
+ASSUME CEval(CParse(<< Idt("x"), Pt("*"), Idt("x"), Pt("%"), Idt("y") >>), IntEnvs[3], "int") = IntV(1)
+ASSUME CParse(<< Idt("x"), Pt("-") >>) = CErr
 ASSUME PrintT(ToJson([intenvs |-> IntEnvs, fltenvs |-> FltEnvs]))
 =============================================================================
